@@ -110,7 +110,18 @@ def gen_actions(rng):
                 ['POST', {'transport': 'websocket', 'EIO': '4', 'sid': '$'}],
                 ['POST', {'transport': 'polling', 'EIO': '4'}],
                 ['OPTIONS', {'transport': 'polling', 'EIO': '4'}],
-                ['DELETE', {'sid': '$'}]])])
+                ['DELETE', {'sid': '$'}],
+                ['OPTIONS', {'transport': 'polling'}],
+                ['OPTIONS', {}],
+                ['OPTIONS', {'transport': 'polling', 'EIO': '3'}],
+                ['PUT', {'transport': 'polling'}],
+                ['DELETE', {}],
+                ['OPTIONS', {'transport': 'polling', 'EIO': '4',
+                             'j': 'abc'}],
+                ['POST', {'transport': 'polling'}],
+                ['GET', {'transport': 'websocket', 'EIO': '4'}],
+                ['GET', {'EIO': '4'}],
+                ['HEAD', {'transport': 'polling', 'EIO': '4'}]])])
         else:
             acts.append(['adv', rng.choice([0.5, 1, PI, PT, PI + PT])])
     # application handlers: a share of the histories uses handlers that block
